@@ -1847,20 +1847,19 @@ Proof. intros [_ H]. lia. Qed.
 
 Theorem a_insert_keyed (m : amm) wm h v :
   AShape m -> a_size m <= 16777216 -> LF m -> ADist m ->
-  exists c m', a_insert veq m true wm h v = Ok (c, (if c =? LY_ERR_EEXIST then
-                 match find (ematch (veq true v) h) (a_row m h) with Some e => snd e | None => v end else v), m') /\
+  exists c mv m', a_insert veq m true wm h v = Ok (c, mv, m') /\
     AShape m' /\ LF m' /\ ADist m' /\
     (a_size m' = a_size m \/ (a_size m' = 2 * a_size m /\ 75 * a_size m <= (a_used m + 1) * 100)) /\
     ((c = LY_ERR_EEXIST /\ m' = m /\
-      exists e, find (ematch (veq true v) h) (a_row m h) = Some e /\ In e (concat (a_bk m)) /\ ekey e = (h, key v)) \/
-     (c = LY_ERR_SUCCESS /\ (forall e, In e (concat (a_bk m)) -> ekey e <> (h, key v)) /\
+      exists e, mv = snd e /\ In e (concat (a_bk m)) /\ ekey e = (h, key v)) \/
+     (c = LY_ERR_SUCCESS /\ mv = v /\ (forall e, In e (concat (a_bk m)) -> ekey e <> (h, key v)) /\
       a_used m' = a_used m + 1 /\ Permutation (concat (a_bk m')) ((h, v) :: concat (a_bk m)))).
 Proof.
   intros S W Hlf Hd. destruct Hlf as [Hrz Hlf].
   pose proof (a_insert_shape m true wm h v S W ltac:(lia)) as H. unfold ins_find in H.
   destruct (a_insert veq m true wm h v) as [[[c mv] m']|e].
   - destruct H as (S' & Hrz' & [(-> & -> & e & Hf & ->)|(-> & Hf & Hu' & Hp' & Hsz' & Hlf' & Hmv)]).
-    + exists LY_ERR_EEXIST, m. rewrite Hf. cbn [N.eqb LY_ERR_EEXIST Pos.eqb].
+    + exists LY_ERR_EEXIST, (snd e), m.
       split; [reflexivity|]. split; [exact S|]. split; [split; assumption|]. split; [exact Hd|].
       split; [now left|]. left. split; [reflexivity|]. split; [reflexivity|].
       destruct (row_find_some m true h v e S Hf). eauto.
@@ -1873,7 +1872,7 @@ Proof.
         destruct (row_find_some m' false h v e S' Hf3) as [Hin Hk].
         apply (Permutation_in _ Hp') in Hin. destruct Hin as [<-|Hin]; [reflexivity|].
         exfalso. now apply (Hfresh e). }
-      subst mv. exists LY_ERR_SUCCESS, m'. cbn [N.eqb LY_ERR_SUCCESS LY_ERR_EEXIST].
+      subst mv. exists LY_ERR_SUCCESS, v, m'.
       split; [reflexivity|]. split; [exact S'|]. split.
       { split; [|apply Hlf'; lia]. destruct Hrz' as [->|[E1 ->]]; lia. }
       split; [exact Hd'|]. split; [exact Hsz'|]. right. auto.
@@ -2054,7 +2053,7 @@ Qed.
 
 (* size bookkeeping: after n operations on a table that started with at most n0 records the
    table has at most 4 * (n0 + n) records, so that used * 100 never wraps *)
-Definition Bnd (m : amm N) (n : N) : Prop := a_used m <= n /\ a_size m <= 4 * n.
+Definition Bnd {V} (m : amm V) (n : N) : Prop := a_used m <= n /\ a_size m <= 4 * n.
 
 Lemma a_nstep_bnd m o n : AShape m -> a_rz m <= 2 -> Bnd m n -> 4 * n <= 16777216 ->
   match a_nstep m o with
@@ -2156,7 +2155,7 @@ Proof.
   destruct o as [h v|h v|h v|h v|h v|h v|]; cbn [a_nstep checked_op] in *; try discriminate.
   - destruct HB as [HBu HBs].
     destruct (a_insert_keyed N nveq N (fun x => x) nveq_key m true h v S ltac:(lia) Hlf Hd)
-      as (c & m' & E & S' & Hlf' & Hd' & _).
+      as (c & mv & m' & E & S' & Hlf' & Hd' & _).
     rewrite E in Hb |- *. cbn [bind fst snd] in *. destruct Hb as (_ & _ & HB'). eauto 8.
   - destruct HB as [HBu HBs].
     destruct (a_remove_keyed N nveq N (fun x => x) nveq_key m h v S ltac:(unfold no_wrap; lia) Hlf Hd)
@@ -2192,3 +2191,228 @@ Lemma nht_dup_breaks_table :
     = [(LY_ERR_SUCCESS, Some 1); (LY_ERR_SUCCESS, None); (LY_ERR_SUCCESS, Some 2); (LY_ERR_ENOTFOUND, None)] /\
   snd (nht_run (init_tab 0 8 1) [OpIns 1 1; OpDup; OpIns 2 2; OpIns 3 3] []) = Err E_ABORT.
 Proof. split; vm_compute; reflexivity. Qed.
+
+(* ---- uint32_t arithmetic of the load factor: beyond 2^25 records used * 100 wraps ---- *)
+Lemma pct_wraps_refuted :
+  let t := mkht 55000000 67108864 2 0 (@nil hlist) (@nil (hrec N)) in
+  75 * ht_size t <= ht_used t * 100 /\ ht_used t < ht_size t /\ pct t < LYHT_SHRINK_PERCENTAGE.
+Proof. vm_compute. repeat split; congruence. Qed.
+
+(* ------------------------------------------------------------------------------------------ *)
+(* in-place update of a stored value through the pointer returned in *match_p (dictionary        *)
+(* reference counts)                                                                           *)
+(* ------------------------------------------------------------------------------------------ *)
+(* m' is m with one entry e replaced by e' (same hash) at its place *)
+Definition upd_rel {V} (m m' : amm V) (e e' : N * V) : Prop :=
+  exists b r1 r2, nth_error (a_bk m) b = Some (r1 ++ e :: r2) /\
+    a_bk m' = upd (a_bk m) b (r1 ++ e' :: r2) /\ a_rz m' = a_rz m /\ fst e' = fst e.
+
+Lemma map_upd_ext {A B} (F G : A -> B) (cs : list A) b l :
+  nth_error cs b = Some l ->
+  (forall b' c, b' <> b -> nth_error cs b' = Some c -> F c = G c) ->
+  map F cs = upd (map G cs) b (F l).
+Proof.
+  revert b; induction cs as [|c cs IH]; intros [|b] Hl H; cbn in *; try discriminate.
+  - inversion Hl; subst. f_equal. apply map_ext_in. intros a Ha.
+    apply In_nth_error in Ha. destruct Ha as (n & Hn). apply (H (S n) a); [lia|exact Hn].
+  - f_equal.
+    + apply (H 0%nat c); [lia|reflexivity].
+    + apply IH; [exact Hl|]. intros b' c' Hb' Hc'. apply (H (S b') c'); [lia|exact Hc'].
+Qed.
+
+Section SV.
+Variable V : Type.
+Variable vdef : V.
+Variable veq : bool -> V -> V -> bool.
+
+Lemma set_val_sim (t : ht V) cs fl i v' : Rep vdef t cs fl -> In i (concat cs) ->
+  exists t', set_val t i v' = Ok t' /\ Rep vdef t' cs fl /\
+    upd_rel (abs vdef t cs) (abs vdef t' cs) (ent V vdef (ht_recs t) i) (fst (ent V vdef (ht_recs t) i), v').
+Proof.
+  intros R Hi. unfold set_val.
+  assert (Hlt : (N.to_nat i < length (ht_recs t))%nat).
+  { pose proof (Rep_in_cs_lt V vdef veq _ _ _ _ R Hi). rewrite (rep_lr _ _ _ _ _ R). lia. }
+  destruct (rd_lt _ _ Hlt) as (r & Hr). rewrite Hr. cbn [bind]. rewrite (wr_Ok _ _ _ Hlt). cbn [bind].
+  set (recs' := upd (ht_recs t) (N.to_nat i) (set_rval r v')).
+  eexists. split; [reflexivity|].
+  assert (Hnx : forall j, nxt V recs' j = nxt V (ht_recs t) j).
+  { intro j. destruct (N.eq_dec j i) as [->|Hne].
+    - unfold recs'. rewrite (nxt_upd_eq V vdef veq) by exact Hlt. cbn. symmetry. now apply (rd_nxt V vdef veq).
+    - unfold recs'. now apply (nxt_upd_neq V vdef veq). }
+  assert (Hent_ne : forall j, j <> i -> ent V vdef recs' j = ent V vdef (ht_recs t) j).
+  { intros j Hne. unfold recs'. now apply (ent_upd_neq V vdef veq). }
+  assert (Hent_i : ent V vdef recs' i = (fst (ent V vdef (ht_recs t) i), v')).
+  { unfold recs'. rewrite (ent_upd_eq V vdef veq) by exact Hlt. rewrite (rd_ent V vdef veq _ _ _ Hr). reflexivity. }
+  assert (Hfst : forall j, fst (ent V vdef recs' j) = fst (ent V vdef (ht_recs t) j)).
+  { intro j. destruct (N.eq_dec j i) as [->|Hne]; [now rewrite Hent_i|now rewrite Hent_ne]. }
+  split.
+  - destruct R as [R1 R2 R3 R4 R5 R6 R7 R8 R9 R10 R11].
+    constructor; cbn [ht_size ht_recs ht_hl ht_used ht_ff]; auto.
+    + unfold recs'. now rewrite upd_length.
+    + intros b hl l H1 H2. destruct (R9 b hl l H1 H2) as (Hc & Hl & Hh). split; [|split]; auto.
+      * eapply (is_chain_ext V vdef veq); [|exact Hc]. intros j _. apply Hnx.
+      * cbn [ht_size ht_recs]. rewrite Forall_forall in *. intros j Hj. rewrite Hfst. auto.
+    + eapply (is_chain_ext V vdef veq); [|exact R10]. intros j _. apply Hnx.
+  - apply in_concat in Hi. destruct Hi as (l & Hl & Hil). apply In_nth_error in Hl. destruct Hl as (b & Hb).
+    apply in_split in Hil. destruct Hil as (l1 & l2 & ->).
+    pose proof (Rep_chain_ne V vdef veq _ _ _ _ _ R Hb) as (_ & _ & Hnd & _).
+    assert (Hi1 : ~ In i l1) by (apply NoDup_remove_2 in Hnd; intro; apply Hnd, in_or_app; now left).
+    assert (Hi2 : ~ In i l2) by (apply NoDup_remove_2 in Hnd; intro; apply Hnd, in_or_app; now right).
+    exists b, (map (ent V vdef (ht_recs t)) l1), (map (ent V vdef (ht_recs t)) l2).
+    split; [|split; [|split; reflexivity]].
+    + unfold abs. cbn [a_bk]. rewrite nth_error_map, Hb. cbn. now rewrite map_app.
+    + unfold abs. cbn [a_bk ht_recs].
+      rewrite (map_upd_ext (map (ent V vdef recs')) (map (ent V vdef (ht_recs t))) cs b _ Hb).
+      * f_equal. rewrite map_app. cbn [map]. rewrite Hent_i. f_equal; [|f_equal].
+        -- apply map_ext_in. intros j Hj. apply Hent_ne. intros ->. auto.
+        -- apply map_ext_in. intros j Hj. apply Hent_ne. intros ->. auto.
+      * intros b' c Hb' Hc. apply map_ext_in. intros j Hj. apply Hent_ne. intros ->.
+        eapply (concat_nodup_disj cs b' b); eauto.
+        -- eapply NoDup_app_l. apply (rep_nodup _ _ _ _ _ R).
+        -- apply in_or_app. right. now left.
+Qed.
+End SV.
+
+Lemma concat_upd_split {A} (cs : list (list A)) b r1 e r2 e' :
+  nth_error cs b = Some (r1 ++ e :: r2) ->
+  exists l1 l2, concat cs = l1 ++ e :: l2 /\ concat (upd cs b (r1 ++ e' :: r2)) = l1 ++ e' :: l2.
+Proof.
+  revert b; induction cs as [|c cs IH]; intros [|b] H; cbn in *; try discriminate.
+  - inversion H; subst. exists r1, (r2 ++ concat cs). rewrite <- !app_assoc. cbn. auto.
+  - destruct (IH _ H) as (l1 & l2 & E1 & E2). exists (c ++ l1), l2. rewrite E1, E2, <- !app_assoc. auto.
+Qed.
+
+Lemma upd_rel_shape {V} (m m' : amm V) e e' : upd_rel m m' e e' -> AShape m ->
+  AShape m' /\ a_size m' = a_size m /\ a_used m' = a_used m /\ a_rz m' = a_rz m /\
+  exists l1 l2, concat (a_bk m) = l1 ++ e :: l2 /\ concat (a_bk m') = l1 ++ e' :: l2.
+Proof.
+  intros (b & r1 & r2 & Hb & Hbk & Hrz & Hfst) [Hs Hr Hu].
+  destruct (concat_upd_split _ _ _ _ _ e' Hb) as (l1 & l2 & E1 & E2).
+  assert (Esz : a_size m' = a_size m) by (unfold a_size; rewrite Hbk; now rewrite upd_length).
+  assert (Eus : a_used m' = a_used m).
+  { unfold a_used. rewrite Hbk, E1, E2, !app_length. reflexivity. }
+  split; [|split; [exact Esz|split; [exact Eus|split; [exact Hrz|]]]].
+  - constructor.
+    + now rewrite Esz.
+    + rewrite Esz, Hbk. intros b' row Hb'. destruct (Nat.eq_dec b' b) as [->|Hne].
+      * rewrite (nth_error_upd_eq' _ _ _ _ Hb) in Hb'. inversion Hb'; subst.
+        specialize (Hr _ _ Hb). unfold row_ok in *. apply Forall_app in Hr. destruct Hr as [H1 H2].
+        inversion H2; subst. apply Forall_app. split; [exact H1|]. constructor; [|assumption]. now rewrite Hfst.
+      * rewrite nth_error_upd_neq in Hb' by auto. now apply Hr.
+    + now rewrite Esz, Eus.
+  - exists l1, l2. rewrite Hbk. auto.
+Qed.
+
+
+(* ---- the load-factor invariant holds in every state reached with resizing enabled (also with
+        lyht_insert_no_check), hence first_free_rec < size at every insert ---- *)
+Lemma a_nstep_lf m o : AShape m -> no_wrap m -> a_size m <= 16777216 -> LF m ->
+  match a_nstep m o with Ok (_, m') => LF m' | Err _ => True end.
+Proof.
+  intros S W W' [Hrz Hlf].
+  assert (Hins : forall check h v,
+    match bind (a_insert nveq m check true h v) (fun x => Ok (fst (fst x), Some (snd (fst x)), snd x)) with
+    | Ok (_, m') => LF m' | Err _ => True end).
+  { intros check h v. pose proof (a_insert_shape N nveq m check true h v S W' ltac:(lia)) as H.
+    destruct (a_insert nveq m check true h v) as [[[c mv] m']|e]; cbn [bind fst snd]; [|exact I].
+    destruct H as (_ & Hrz' & [(_ & -> & _)|(_ & _ & _ & _ & _ & Hlf' & _)]); [split; assumption|].
+    split; [destruct Hrz' as [->|[_ ->]]; lia|apply Hlf'; lia]. }
+  destruct o as [h v|h v|h v|h v|h v|h v|]; cbn [a_nstep]; [apply Hins|apply Hins| | | | |exact I];
+    try (split; assumption).
+  pose proof (a_remove_shape N nveq m h v S W) as H.
+  destruct (a_remove nveq m h v) as [[c m']|e]; cbn [bind fst snd]; [|exact I].
+  destruct H as (_ & Hrz' & [(_ & -> & _)|(_ & _ & _ & _ & Hlf')]); [split; assumption|].
+  split; [destruct Hrz' as [->|[_ ->]]; lia|now apply Hlf'].
+Qed.
+
+Theorem a_nrun_lf : forall ops m acc n, AShape m -> LF m -> Bnd m n ->
+  4 * (n + N.of_nat (length ops)) <= 16777216 ->
+  match a_nrun m ops acc with (_, Ok m') => LF m' | _ => True end.
+Proof.
+  induction ops as [|o ops IH]; intros m acc n S Hlf HB Hn; cbn [a_nrun]; [exact Hlf|].
+  cbn [length] in Hn. assert (Hrz : a_rz m <= 2) by (destruct Hlf; lia).
+  pose proof (a_nstep_bnd m o n S Hrz HB ltac:(lia)) as Hb.
+  pose proof (a_nstep_lf m o S ltac:(destruct HB; unfold no_wrap; lia) ltac:(destruct HB; lia) Hlf) as Hl.
+  destruct (a_nstep m o) as [[x m']|e]; [|exact I]. cbn [fst snd].
+  destruct Hb as (S' & _ & HB'). apply (IH m' _ (n + 1)); auto. lia.
+Qed.
+
+(* under the load-factor invariant the free list is not empty: the assert of lyht_insert *)
+Lemma LF_free_rec {V} (vdef : V) (veq : bool -> V -> V -> bool) (t : ht V) cs fl :
+  Rep vdef t cs fl -> LF (abs vdef t cs) -> ht_ff t < ht_size t.
+Proof.
+  intros R [_ Hlf]. rewrite (abs_used V vdef veq _ _ _ R), (abs_size V vdef veq _ _ _ R) in Hlf.
+  apply N.ltb_lt. rewrite (Rep_ff_lt V vdef veq _ _ _ R). apply N.ltb_lt. lia.
+Qed.
+
+
+(* ------------------------------------------------------------------------------------------ *)
+(* from lyht_new(): every script                                                                 *)
+(* ------------------------------------------------------------------------------------------ *)
+Lemma new_sz_le k : k <= 20 -> new_sz k <= 1048576.
+Proof.
+  intro Hk. unfold new_sz, LYHT_MIN_SIZE. destruct (2 ^ k <? 8); [lia|]. change 1048576 with (2 ^ 20).
+  apply N.pow_le_mono_r; lia.
+Qed.
+
+Lemma empty_amm_facts {V} (veq : bool -> V -> V -> bool) k rz : k <= 20 ->
+  let m0 := mkamm rz (repeat (@nil (N * V)) (N.to_nat (new_sz k))) in
+  AShape m0 /\ Bnd m0 (new_sz k) /\ concat (a_bk m0) = [] /\ (1 <= rz <= 2 -> LF m0).
+Proof.
+  intros Hk m0. destruct (AShape_empty V veq rz (new_sz k) (new_sz_ok k ltac:(lia))) as (S & Hs & Hu).
+  fold m0 in Hs, Hu. pose proof (size_ok_pos V veq _ (as_size _ _ S)) as Hp. fold m0 in Hp. rewrite Hs in Hp.
+  split; [exact S|]. split; [unfold Bnd; rewrite Hs, Hu; lia|]. split.
+  - unfold m0. cbn [a_bk]. apply concat_repeat_nil.
+  - intro Hrz. split; [exact Hrz|]. rewrite Hs, Hu. lia.
+Qed.
+
+Theorem nht_new_run_refines k rz ops :
+  k <= 20 -> rz <= 1 -> N.of_nat (length ops) <= 3145728 -> forallb not_dup ops = true ->
+  lyht_new 0 (2 ^ k) rz = Ok (init_tab 0 (new_sz k) rz) /\
+  match a_nrun (mkamm rz (repeat [] (N.to_nat (new_sz k)))) ops [] with
+  | (outs, Ok m') => exists t' cs' fl',
+      nht_run (init_tab 0 (new_sz k) rz) ops [] = (outs, Ok t') /\ Rep 0 t' cs' fl' /\ abs 0 t' cs' = m'
+  | (outs, Err e) => nht_run (init_tab 0 (new_sz k) rz) ops [] = (outs, Err e) /\ e = E_ABORT
+  end.
+Proof.
+  intros Hk Hrz Hn Hnd. destruct (lyht_new_Rep 0 nveq k rz ltac:(lia) Hrz) as (E & R & A).
+  split; [exact E|]. rewrite <- A.
+  destruct (empty_amm_facts nveq k rz Hk) as (_ & HB & _). pose proof (new_sz_le k Hk).
+  apply (nht_run_sim ops _ _ _ [] (new_sz k) R).
+  - cbn. lia.
+  - now rewrite A.
+  - lia.
+  - exact Hnd.
+Qed.
+
+(* with resizing enabled no state has an empty free list (the assert of lyht_insert) *)
+Theorem nht_new_run_free_rec k ops :
+  k <= 20 -> N.of_nat (length ops) <= 3145728 -> forallb not_dup ops = true ->
+  match nht_run (init_tab 0 (new_sz k) 1) ops [] with
+  | (_, Ok t') => ht_ff t' < ht_size t'
+  | (_, Err e) => e = E_ABORT
+  end.
+Proof.
+  intros Hk Hn Hnd. destruct (nht_new_run_refines k 1 ops Hk ltac:(lia) Hn Hnd) as [_ H].
+  destruct (empty_amm_facts nveq k 1 Hk) as (S & HB & Hc & Hlf0). pose proof (new_sz_le k Hk).
+  pose proof (a_nrun_lf ops _ [] (new_sz k) S (Hlf0 ltac:(lia)) HB ltac:(lia)) as Hl.
+  destruct (a_nrun _ ops []) as [outs [m'|e]].
+  - destruct H as (t' & cs' & fl' & -> & R' & A'). rewrite <- A' in Hl. exact (LF_free_rec 0 nveq _ _ _ R' Hl).
+  - destruct H as [-> He]. exact He.
+Qed.
+
+(* scripts of checked operations with resizing enabled never stop *)
+Theorem nht_new_checked_total k ops :
+  k <= 20 -> N.of_nat (length ops) <= 3145728 -> forallb checked_op ops = true ->
+  exists outs t' cs' fl',
+    nht_run (init_tab 0 (new_sz k) 1) ops [] = (outs, Ok t') /\ Rep 0 t' cs' fl' /\
+    a_nrun (mkamm 1 (repeat [] (N.to_nat (new_sz k)))) ops [] = (outs, Ok (abs 0 t' cs')).
+Proof.
+  intros Hk Hn Hc. destruct (nht_new_run_refines k 1 ops Hk ltac:(lia) Hn (checked_not_dup _ Hc)) as [_ H].
+  destruct (empty_amm_facts nveq k 1 Hk) as (S & HB & Hcc & Hlf0). pose proof (new_sz_le k Hk).
+  destruct (a_nrun_checked_total ops _ [] (new_sz k) S (Hlf0 ltac:(lia))) as (outs & m' & E & _); auto.
+  { unfold ADist. rewrite Hcc. constructor. }
+  { lia. }
+  rewrite E in H. destruct H as (t' & cs' & fl' & E' & R' & A'). exists outs, t', cs', fl'.
+  split; [exact E'|]. split; [exact R'|]. now rewrite A'.
+Qed.
